@@ -127,6 +127,15 @@ def resolve(entries, typ):
 def expect(case, octal_zero=True):
     """what the property statement demands for this case:
        ('exc', {allowed class names}, reason) or ('ok', spans, values)"""
+    lk = case.get('lookup') or {}
+    if lk.get('cls', 'ok') != 'ok':
+        return ('exc', {'CIMError'}, 'class_not_retrievable')
+    want = {'property': ['P'], 'method': ['M'], 'parameter': ['M', 'A']}[case['kind']]
+    names = lk.get('names', want)
+    if [n.casefold() for n in names] != [n.casefold() for n in want]:
+        # the only other elements of the generated class are decoys without the case's qualifiers: a name that
+        # folds to a decoy is generated only as 'missing' (see gen_lookup), so any mismatch = no such element
+        return ('exc', {'KeyError'}, 'no_such_element')
     if case['typ'] not in INT_TYPES:
         return ('exc', {'ModelError'}, 'not_integer_typed')
     if case['values'] is None and not case.get('values_null'):
@@ -144,6 +153,8 @@ def expect(case, octal_zero=True):
             values = values + [case['vd']] * (len(vmap) - len(values))
         else:
             values = values[:len(vmap)]
+    if case.get('valuemap_none_at'):
+        return ('exc', {'ModelError', 'ValueError'}, 'null_valuemap_element')
     entries = [parse_entry(s, octal_zero) for s in vmap]
     if any(e is None for e in entries):
         return ('exc', {'ModelError'}, 'malformed_entry')
@@ -196,6 +207,13 @@ def oracle(run, case, real):
     if exp[0] == 'exc':
         if 'ok' in real:
             run.violate({'kind': 'ctor_accepts_malformed', 'why': exp[2]}, case, {'items': real['ok']['items']})
+        elif exp[2] == 'class_not_retrievable':
+            if real != case.get('getclass'):
+                run.violate({'kind': 'factory_does_not_pass_connection_error_through'}, case,
+                            {'getclass': case.get('getclass'), 'got': real})
+        elif exp[2] == 'no_such_element':
+            if real['exc'] != 'KeyError':
+                run.violate({'kind': 'factory_missing_element_not_KeyError', 'exc': real['exc']}, case, real)
         elif real['exc'] not in ('ModelError', 'ValueError'):
             run.violate({'kind': 'ctor_leak', 'exc': real['exc'], 'why': exp[2]}, case, real)
         elif real['exc'] not in exp[1]:
@@ -206,7 +224,8 @@ def oracle(run, case, real):
         if real['exc'] in ('ModelError', 'ValueError'):
             run.violate({'kind': 'ctor_rejects_valid', 'exc': real['exc'], 'cause': cause}, case, real)
         else:
-            run.violate({'kind': 'ctor_leak', 'exc': real['exc'], 'why': 'valid_input'}, case, real)
+            run.violate({'kind': 'ctor_leak', 'exc': real['exc'], 'why': 'valid_input',
+                         'valuemap_entries_ge_900': len(case['valuemap'] or []) >= 900}, case, real)
         return 'rejected'
     r = real['ok']
     # items(): every entry, in qualifier order
@@ -273,31 +292,113 @@ def oracle(run, case, real):
                     if acc == {s}:
                         run.violate({'kind': 'tobinary_member_does_not_map_back'}, case, {'s': s, 'v': v, 'got': tv[v]})
                         break
+    # argument forms of tovalues(): None, list/tuple (item-wise, first failing item decides), bool and CIMInt are
+    # ints, anything else TypeError; tobinary(): only str
+    def exp_scalar(x):
+        if isinstance(x, dict) and ('int' in x or 'cimint' in x or 'bool' in x):
+            v = int(x.get('int', x.get('cimint', 0))) if 'bool' not in x else int(bool(x['bool']))
+            acc, _ = acceptable(spans, values, v)
+            return ('exc', 'ValueError') if acc is None else acc
+        return ('exc', 'TypeError')
+    for a, o in zip(case.get('args', []), r.get('args', [])):
+        if a is None:
+            ok = o is None
+        elif isinstance(a, dict) and 'list' in a:
+            exps = [exp_scalar(x) for x in a['list']]
+            bad = next((e for e in exps if isinstance(e, tuple)), None)
+            if bad is not None:
+                ok = o == {'exc': bad[1]}
+            else:
+                ok = isinstance(o, dict) and 'list' in o and len(o['list']) == len(exps) and \
+                    all(common.from_cps(g) in e for g, e in zip(o['list'], exps))
+        else:
+            e = exp_scalar(a)
+            ok = (o == {'exc': e[1]}) if isinstance(e, tuple) else (isinstance(o, list) and common.from_cps(o) in e)
+        if not ok:
+            run.violate({'kind': 'tovalues_argument_form', 'form': 'None' if a is None else
+                         ('list' if isinstance(a, dict) and 'list' in a else 'scalar')}, case, {'arg': a, 'got': o})
+            break
+    for a, o in zip(case.get('tbargs', []), r.get('tbargs', [])):
+        if isinstance(a, dict) and 'str' in a:
+            holders = [1 for i, sp in enumerate(spans) if values[i] == a['str']]
+            ok = ('b' in o) if holders else (o == {'exc': 'ValueError'})
+        else:
+            ok = o == {'exc': 'TypeError'}
+        if not ok:
+            run.violate({'kind': 'tobinary_argument_form'}, case, {'arg': a, 'got': o})
+            break
     return 'ok'
 
 
 # ----------------------------------------------------------------------------- real side
 
+DECOY_Q = {'Values': ('arr', ['dq0', 'dq1', 'dq2']), 'ValueMap': ('arr', ['7', '8..9', '..'])}
+
+
+def vmap_items(case):
+    """the ValueMap array as delivered: the strings of the case, None at the positions `valuemap_none_at`"""
+    na = case.get('valuemap_none_at') or []
+    return [None if i in na else x for i, x in enumerate(case['valuemap'])]
+
+
+def class_desc(case):
+    """the CIM class of a case as plain data (used for the real objects AND for the model request):
+       {'props': [(name, elem)], 'methods': [(name, elem, [(pname, elem)])]},
+       elem = {'typ', 'is_array', 'quals': [(qualifier name, None | ('arr', [str]) | ('scalar', str))]}"""
+    qn = case.get('qnames') or {}
+    quals = []
+    if case['valuemap'] is not None or case.get('valuemap_null'):
+        v = None if case.get('valuemap_null') else \
+            (('scalar', ''.join(case['valuemap'])) if case.get('valuemap_scalar') else ('arr', vmap_items(case)))
+        quals.append((qn.get('ValueMap', 'ValueMap'), v))
+    if case['values'] is not None or case.get('values_null'):
+        v = None if case.get('values_null') else \
+            (('scalar', ''.join(case['values'])) if case.get('values_scalar') else ('arr', list(case['values'])))
+        quals.append((qn.get('Values', 'Values'), v))
+    if case.get('quals_reversed'):
+        quals.reverse()
+    typ, arr = case['typ'], case['is_array']
+    target = {'typ': typ, 'is_array': arr, 'quals': quals}
+    plain = {'typ': 'uint32', 'is_array': False, 'quals': []}
+    decoy = {'typ': 'uint8', 'is_array': False, 'quals': list(DECOY_Q.items())}
+    props, meths = [], []
+    d = bool(case.get('decoys'))
+    first = bool(case.get('decoy_first'))
+    if case['kind'] == 'property':
+        props = [('P', target)]
+        meths = [('M', plain, [])]
+        if d:
+            props = ([('Q', decoy)] + props) if first else (props + [('Q', decoy)])
+            props.append(('PP', dict(decoy, typ='string')))
+            meths = [('M', dict(decoy), [('P', decoy)])]      # same names in other dictionaries must not matter
+    elif case['kind'] == 'method':
+        meths = [('M', target, [])]
+        if d:
+            meths = [('M', target, [('M', decoy), ('A', decoy)])]
+            meths = ([('N', decoy, [])] + meths) if first else (meths + [('N', decoy, [])])
+            props = [('M', decoy)]
+    else:
+        meths = [('M', plain, [('A', target)])]
+        if d:
+            ps = ([('B', decoy), ('A', target)]) if first else ([('A', target), ('B', decoy)])
+            meths = [('M', dict(decoy, typ='uint32'), ps), ('N', decoy, [('A', decoy)])]
+            if first:
+                meths.reverse()
+            props = [('A', decoy)]
+    return {'props': props, 'methods': meths}
+
+
 def build_class(case):
     import pywbem
-    quals = {}
-    if case['values'] is not None or case.get('values_null'):
-        quals['Values'] = None if case.get('values_null') else case['values']
-    if case['valuemap'] is not None or case.get('valuemap_null'):
-        quals['ValueMap'] = None if case.get('valuemap_null') else case['valuemap']
 
-    def q():
-        return {k: pywbem.CIMQualifier(k, None if v is None else list(v), type='string') for k, v in quals.items()}
-    typ, arr = case['typ'], case['is_array']
-    props, meths = {}, {}
-    if case['kind'] == 'property':
-        props['P'] = pywbem.CIMProperty('P', None, type=typ, is_array=arr, qualifiers=q())
-        meths['M'] = pywbem.CIMMethod('M', return_type='uint32')
-    elif case['kind'] == 'method':
-        meths['M'] = pywbem.CIMMethod('M', return_type=typ, qualifiers=q())
-    else:
-        meths['M'] = pywbem.CIMMethod('M', return_type='uint32', parameters={
-            'A': pywbem.CIMParameter('A', type=typ, is_array=arr, qualifiers=q())})
+    def q(elem):
+        return [pywbem.CIMQualifier(n, None if v is None else (v[1] if v[0] == 'scalar' else list(v[1])), type='string')
+                for n, v in elem['quals']]
+    cd = class_desc(case)
+    props = [pywbem.CIMProperty(n, None, type=e['typ'], is_array=e['is_array'], qualifiers=q(e)) for n, e in cd['props']]
+    meths = [pywbem.CIMMethod(n, return_type=e['typ'], qualifiers=q(e), parameters=[
+        pywbem.CIMParameter(pn, type=pe['typ'], is_array=pe['is_array'], qualifiers=q(pe)) for pn, pe in ps])
+        for n, e, ps in cd['methods']]
     return pywbem.CIMClass('TST_C', properties=props, methods=meths)
 
 
@@ -377,17 +478,28 @@ def real_eval(case):
     except Exception as e:  # noqa  (the repository refused the class: not a ValueMapping outcome)
         return {'setup_failed': type(e).__name__ + ': ' + str(e)[:200]}, side
     server = pywbem.WBEMServer(conn) if case.get('server') else conn
+    lk = case.get('lookup') or {}
     ns = None if case.get('ns_none') and case['kind'] == 'property' else 'root/a'
+    if lk.get('cls') == 'badns':
+        ns = 'root/nonexistent'
+    cn = 'TST_Missing' if lk.get('cls') == 'missing' else ('tst_c' if lk.get('cls_lower') else 'TST_C')
+    names = lk.get('names') or {'property': ['P'], 'method': ['M'], 'parameter': ['M', 'A']}[case['kind']]
+    # what the connection answers for the GetClass the factory issues (input of the model)
+    try:
+        conn.GetClass(ClassName=cn, namespace=ns, LocalOnly=False, IncludeQualifiers=True)
+        case['getclass'] = None
+    except Exception as e:  # noqa
+        case['getclass'] = common.exc_json(e)
     kw = {}
     if case['vd'] is not None or case.get('pass_vd_none'):
         kw['values_default'] = case['vd']
     try:
         if case['kind'] == 'property':
-            vm = pywbem.ValueMapping.for_property(server, ns, 'TST_C', 'P', **kw)
+            vm = pywbem.ValueMapping.for_property(server, ns, cn, names[0], **kw)
         elif case['kind'] == 'method':
-            vm = pywbem.ValueMapping.for_method(server, ns, 'TST_C', 'M', **kw)
+            vm = pywbem.ValueMapping.for_method(server, ns, cn, names[0], **kw)
         else:
-            vm = pywbem.ValueMapping.for_parameter(server, ns, 'TST_C', 'M', 'A', **kw)
+            vm = pywbem.ValueMapping.for_parameter(server, ns, cn, names[0], names[1], **kw)
     except Exception as e:  # noqa
         return common.exc_json(e), side
     try:
@@ -432,7 +544,51 @@ def real_eval(case):
                 side.append('tovalues_CIMInt_differs_from_int')
     except Exception as e:  # noqa
         side.append('side_check_crashed:' + type(e).__name__)
-    return {'ok': {'items': items, 'tv': tv, 'scan': scan, 'tb': tb}}, side
+    args = []
+    for a in case.get('args', []):
+        try:
+            r = vm.tovalues(py_arg(a, case['typ']))
+            if r is None:
+                args.append(None)
+            elif isinstance(r, str):
+                args.append(common.cps(r))
+            elif isinstance(r, list) and all(isinstance(x, str) for x in r):
+                args.append({'list': [common.cps(x) for x in r]})
+            else:
+                args.append({'odd': repr(r)[:80]})
+        except Exception as e:  # noqa
+            args.append(common.exc_json(e))
+    tbargs = []
+    for a in case.get('tbargs', []):
+        try:
+            tbargs.append({'b': enc_bin(vm.tobinary(py_scalar(a, case['typ'])))})
+        except Exception as e:  # noqa
+            tbargs.append(common.exc_json(e))
+    return {'ok': {'items': items, 'tv': tv, 'scan': scan, 'tb': tb, 'args': args, 'tbargs': tbargs}}, side
+
+
+def py_scalar(a, typ):
+    import pywbem
+    if a is None:
+        return None
+    if a == 'other':
+        return 1.5
+    if 'int' in a:
+        return int(a['int'])
+    if 'cimint' in a:
+        return pywbem.type_from_name(typ)(int(a['cimint']))
+    if 'bool' in a:
+        return bool(a['bool'])
+    if 'str' in a:
+        return a['str']
+    raise ValueError(a)
+
+
+def py_arg(a, typ):
+    if isinstance(a, dict) and 'list' in a:
+        xs = [[1] if x == 'nested' else py_scalar(x, typ) for x in a['list']]
+        return tuple(xs) if a.get('tuple') else xs
+    return py_scalar(a, typ)
 
 
 # ----------------------------------------------------------------------------- generators
@@ -655,22 +811,135 @@ def gen_case(rng, thorough, stats=None):
     case['strs'] = strs[:12]
     if rng.random() < 0.08 and mof_safe(case) and typ != 'char16':
         case['via'] = 'mof'
+    gen_glue(rng, case)
     return case
 
 
+SWAP = [str.lower, str.upper, str.swapcase, lambda x: x]
+NO_SUCH = ['Nope', 'X1', 'P_', '', ' P', 'Values', 'M.A']
+
+
+def gen_glue(rng, case):
+    """factory-method glue (qualifier/element name case, decoy elements, failing lookups, scalar qualifier values)
+    and the argument forms of tovalues()/tobinary()"""
+    mof = case['via'] == 'mof'
+    if not mof:
+        if rng.random() < 0.3:
+            case['qnames'] = {'Values': rng.choice(['values', 'VALUES', 'vaLues']),
+                              'ValueMap': rng.choice(['valuemap', 'VALUEMAP', 'Valuemap'])}
+        case['quals_reversed'] = rng.random() < 0.3
+        case['decoys'] = rng.random() < 0.4
+        case['decoy_first'] = rng.random() < 0.5
+        if rng.random() < 0.04 and case['values'] is not None:
+            case['values'] = list(rng.choice(['abc', 'ab', 'xyz1', 'q']))
+            case['values_scalar'] = True
+            case['strs'] = list(case['values']) + ['ab']
+            if case['valuemap'] is not None and rng.random() < 0.7:
+                case['valuemap'] = list(rng.choice(['123', '12', '1..', '0', '1b', '..', '321 ']))
+                case['valuemap_scalar'] = True
+    want = {'property': ['P'], 'method': ['M'], 'parameter': ['M', 'A']}[case['kind']]
+    lk = {'cls': 'ok', 'names': list(want)}
+    r = rng.random()
+    if not mof and rng.random() < 0.02 and case['valuemap'] and case['values'] is not None \
+            and not case.get('values_null') and not case.get('valuemap_scalar') and not case.get('values_scalar'):
+        # NULL element(s) inside the ValueMap array (known finding C20-KF4); compared with the model at the
+        # _create_for_element level (createI), so the lookup itself is kept successful
+        n = len(case['valuemap'])
+        case['valuemap_none_at'] = sorted(set(rng.randrange(n) for _ in range(rng.choice([1, 1, 2]))))
+        r = 0.9
+    if r < 0.03:
+        lk['cls'] = 'missing'
+    elif r < 0.06:
+        lk['cls'] = 'badns'
+    elif r < 0.13:
+        lk['names'][rng.randrange(len(want))] = rng.choice(NO_SUCH)
+    elif r < 0.45:
+        lk['names'] = [rng.choice(SWAP)(n) for n in want]
+    if rng.random() < 0.1:
+        lk['cls_lower'] = True
+    case['lookup'] = lk
+    if case['typ'] in INT_TYPES:
+        lo, hi = INT_TYPES[case['typ']]
+        ints = [v for v in case['vs']] + ([rng.randint(case['scan'][0], case['scan'][1]) for _ in range(6)]
+                                          if case['scan'] else [])
+        ints = ints or [0]
+
+        def sc():
+            k = rng.random()
+            v = rng.choice(ints)
+            if k < 0.55:
+                return {'int': str(v)}
+            if k < 0.70 and lo <= v <= hi:
+                return {'cimint': str(v)}
+            if k < 0.80:
+                return {'bool': rng.random() < 0.5}
+            return rng.choice([None, {'str': '1'}, 'other', 'nested'])
+        args = [None, {'bool': True}, {'str': '1'}, 'other', {'list': []}, {'list': [], 'tuple': True}]
+        for _ in range(5):
+            xs = [sc() for _ in range(rng.randint(1, 5))]
+            args.append({'list': xs, 'tuple': rng.random() < 0.4})
+        for _ in range(3):
+            x = sc()
+            args.append('other' if x == 'nested' else x)
+        case['args'] = rng.sample(args, 7)
+        case['tbargs'] = rng.sample([None, {'int': '1'}, 'other', {'bool': True},
+                                     {'str': rng.choice(case['strs'])}, {'str': 'nope'}], 3)
+
+
+def _m_scalar(x):
+    if x == 'nested':
+        return 'other'
+    if isinstance(x, dict) and 'str' in x:
+        return {'str': common.cps(x['str'])}
+    return x
+
+
+def _m_elem(e):
+    def qv(v):
+        if v is None:
+            return None
+        if v[0] == 'scalar':
+            return {'scalar': common.cps(v[1])}
+        return {'arr': [None if x is None else common.cps(x) for x in v[1]]}
+    return {'typ': e['typ'], 'quals': [[common.cps(n), qv(v)] for n, v in e['quals']]}
+
+
 def model_request(case):
-    return {'op': 'vm', 'typ': case['typ'],
-            'values': None if case['values'] is None else [common.cps(s) for s in case['values']],
-            'valuemap': None if case['valuemap'] is None else [common.cps(s) for s in case['valuemap']],
-            'values_null': bool(case.get('values_null')), 'valuemap_null': bool(case.get('valuemap_null')),
+    """the factory call of the case for the model: the class as data, the outcome of GetClass as observed on the
+    real connection, the names looked up, the probes"""
+    if case.get('valuemap_none_at'):
+        return {'op': 'vmI', 'typ': case['typ'], 'values': [common.cps(x) for x in case['values']],
+                'valuemap': [None if x is None else common.cps(x) for x in vmap_items(case)],
+                'vd': None if case['vd'] is None else common.cps(case['vd'])}
+    gc = case.get('getclass')
+    if gc is not None:
+        cls = gc
+    else:
+        cd = class_desc(case)
+        cls = {'props': [[common.cps(n), _m_elem(e)] for n, e in cd['props']],
+               'methods': [[common.cps(n), _m_elem(e), [[common.cps(pn), _m_elem(pe)] for pn, pe in ps]]
+                           for n, e, ps in cd['methods']]}
+    lk = case.get('lookup') or {}
+    names = lk.get('names') or {'property': ['P'], 'method': ['M'], 'parameter': ['M', 'A']}[case['kind']]
+    args = []
+    for a in case.get('args', []):
+        if isinstance(a, dict) and 'list' in a:
+            args.append({'list': [_m_scalar(x) for x in a['list']]})
+        else:
+            args.append(_m_scalar(a))
+    return {'op': 'api', 'cls': cls, 'call': case['kind'], 'names': [common.cps(n) for n in names],
             'vd': None if case['vd'] is None else common.cps(case['vd']),
             'vs': [str(v) for v in case['vs']], 'scan': case['scan'],
-            'strs': [common.cps(s) for s in case['strs']]}
+            'strs': [common.cps(s) for s in case['strs']],
+            'args': args, 'tbargs': [_m_scalar(a) for a in case.get('tbargs', [])]}
 
 
 def model_part(ans):
     if 'exc' in ans:
-        return {'exc': ans['exc']}
+        out = {'exc': ans['exc']}
+        if 'code' in ans:
+            out['code'] = ans['code']
+        return out
     return {'ok': ans.get('ok')}
 
 
@@ -682,6 +951,12 @@ def spec_part(ans):
 
 
 def _work(case):
+    real, side = real_eval(case)
+    return real, side, case.get('getclass')
+
+
+def real_eval_gc(case):
+    """real_eval in this process; case['getclass'] is set as a side effect"""
     return real_eval(case)
 
 
@@ -768,19 +1043,33 @@ def check_case(run, case, real, side, ans, stats):
     run.count('type:' + case['typ'])
     run.count('kind:' + case['kind'] + ('[]' if case['is_array'] else ''))
     run.count('via:' + case['via'])
+    lk = case.get('lookup') or {}
+    run.count('lookup:class_' + lk.get('cls', 'ok'))
+    if case.get('decoys'):
+        run.count('class_with_decoy_elements')
+    if case.get('qnames'):
+        run.count('qualifier_names_other_case')
+    if case.get('values_scalar') or case.get('valuemap_scalar'):
+        run.count('scalar_qualifier_value')
     if 'setup_failed' in real:
         run.count('setup_failed')
         run.notes.append('mock repository refused a generated class: %s' % real['setup_failed'])
         return
     run.count('outcome:' + real.get('exc', 'ok'))
-    if ans is not None:
+    if ans is not None and case.get('valuemap_none_at'):
+        run.count('valuemap_with_null_element')
+        m = {'exc': ans['exc']} if 'exc' in ans else {'ok': ans.get('ok')}
+        if ('exc' in m) != ('exc' in real) or m.get('exc') != real.get('exc'):
+            run.disagree(case, m, {'exc': real.get('exc')}, '_create_for_element on a ValueMap array with NULL elements')
+    elif ans is not None:
         m = model_part(ans)
         if m != real:
             run.disagree(case, m, real, 'ValueMapping construction/items/tovalues/tobinary')
         # the short spec, run by the same driver, must agree with the model (theorem-backed; cheap cross-check)
-        sp = ans.get('spec', {})
-        if case.get('values_null') or case.get('valuemap_null'):
-            pass        # the spec has no NULL-valued qualifiers (C20-KF2); only model vs code is compared
+        sp = ans.get('spec')
+        if sp is None:
+            pass        # no element to evaluate the spec on (class/element lookup failed) or a NULL-valued qualifier
+                        # (C20-KF2): only model vs code is compared
         elif 'exc' in m:
             if sp.get('exc') != m['exc']:
                 run.disagree(case, m, sp, 'model vs spec (exception class)')
@@ -825,7 +1114,8 @@ def run(run):
                 '(16-bit: exhaustive for half of the cases in the thorough tier), else at type limits, every entry end +-1 '
                 'and random points; non-trivial = at least 2 ValueMap entries; distinct = distinct (kind,type,arrays,default)')
     run.assumptions += [
-        'ValueMap arrays shorter than the Python recursion limit (~1000 consecutive open ranges would exhaust it)',
+        'model budget for _values_tuple = length+1 frames (proved sufficient); CPython grants what is left of its recursion '
+        'limit: chains of ~1000 consecutive open ranges raise RecursionError (known finding C20-KF3, probed every run)',
         'integer literals shorter than 4300 digits (CPython int() conversion limit)',
         'array elements of the Values/ValueMap qualifier values are strings (a NULL element is not generated); NULL '
         'qualifier VALUES are generated and modelled (createQ), see known finding C20-KF2',
@@ -837,11 +1127,36 @@ def run(run):
         statss.append(st)
     import c20 as _self          # importable name (harness/ is on sys.path) so that the fork pool can pickle it
     reals = common.pmap(_self._work, cases)
+    for c, (_, _, gc) in zip(cases, reals):
+        c['getclass'] = gc
     answers = common.run_driver(PROP, [model_request(c) for c in cases])
-    for case, (real, side), ans, st in zip(cases, reals, answers, statss):
+    for case, (real, side, gc), ans, st in zip(cases, reals, answers, statss):
         check_case(run, case, real, side, ans, st)
+    long_chain_probes(run)
     intlit_check(run)
     run.exhaustive = False
+
+
+def chain_case(n, left, typ='uint32'):
+    vmap = [('..%d' % (10 * i)) if left else ('%d..' % (10 * i)) for i in range(1, n + 1)]
+    return {'kind': 'property', 'typ': typ, 'is_array': False, 'values': ['v%d' % i for i in range(n)], 'valuemap': vmap,
+            'vd': None, 'values_null': False, 'valuemap_null': False, 'server': False, 'ns_none': False,
+            'pass_vd_none': False, 'via': 'objects', 'scan': None,
+            'vs': [0, 5, 10, 11, 10 * n - 1, 10 * n, 10 * n + 1, 2 ** 32 - 1], 'strs': ['v0', 'v%d' % (n - 1)],
+            'lookup': {'cls': 'ok', 'names': ['P']}, 'args': [], 'tbargs': []}
+
+
+def long_chain_probes(run):
+    """chains of consecutive open ranges: 300 entries (model vs code vs oracle) and 1100 entries (oracle only: the
+    real recursion budget is what is left of CPython's recursion limit, known finding C20-KF3)"""
+    small = [chain_case(300, True), chain_case(300, False)]
+    reals = [real_eval(c) for c in small]
+    answers = common.run_driver(PROP, [model_request(c) for c in small])
+    for c, (real, side), ans in zip(small, reals, answers):
+        check_case(run, c, real, side, ans, ['style:chain-300'])
+    for c in (chain_case(1100, True), chain_case(1100, False)):
+        real, side = real_eval(c)
+        check_case(run, c, real, side, None, ['style:chain-1100'])
 
 
 def oracle_only(run):
